@@ -45,6 +45,8 @@ def generate(ctx):
             d["delay_values"] = rng.choice(["ongrid", "offgrid", "offgrid"]) if d["delayed"] else "ongrid"
         if d["reward"] == "tensor":
             d["reduction"] = "sum"
+        if "Kernel" in name and rng.random() < 0.4:
+            d["kernel"] = "osc"           # a user kernel whose sign changes with the time difference
         yield d
     for i in range(400 if th else 16):
         yield {"part": "cross", "pair": i % 2, "tensor_kwargs": rng.choice([[], ["post_learning_rate", "post_time_constant"], ["pre_learning_rate"]]),
@@ -133,7 +135,9 @@ def _formula(ctx, desc):
     name = desc["trainer"]
     a, b = c08.SIGNS[desc["signs"]]
     hyper = {"lr_a": a, "lr_b": b, "delayed": desc.get("delayed", False), "tensor_kwargs": desc.get("tensor_kwargs", []),
-             "inplace": bool(desc.get("inplace"))}
+             "inplace": bool(desc.get("inplace")), "kernel": desc.get("kernel")}
+    if desc.get("kernel"):
+        ctx.count("user_kernel_cases")
     _continuous(desc, hyper, a, b)
     red = desc["reduction"]
     h = tr.Harness(name, desc["conn"], dt=desc["dt"], B=desc["B"], delay_steps=desc["delay"], seed=desc["seed"],
